@@ -141,10 +141,15 @@ func c10(c *Ctx) {
 	c.Before("(*http2.serverConn).noteBodyRead", Calls(hcC10SWU).ArgIs(1, "nil").ArgIs(2, "$1"), Returns())
 
 	// server: sendWindowUpdate turns the add result into a queued WINDOW_UPDATE
-	c.Guard(hcC10SWU, hcRecvIs(Calls(hcC10Add), 0, hcC10SrvConnFld), "$0 == nil")
-	c.Guard(hcC10SWU, hcRecvIs(Calls(hcC10Add), 0, "http2.stream.inflow"), "$0 != nil")
-	c.Count(hcC10SWU, Calls(hcC10Add).ArgIs(1, "$1"), 2, 2)
-	c.Has(hcC10SWU, Stores("http2.writeWindowUpdate.streamID").StoredIs("φ($0.id|0)"))
+	// On every path n is added to exactly one window: the connection's when st == nil, that stream's otherwise.
+	// The receiver may be chosen per branch (one add call in each) or be a merge of the two windows (one call):
+	// the merge is expanded per incoming edge with the facts of that edge.
+	swuAdds := Calls(hcC10Add)
+	c.HsArgUnder(hcC10SWU, swuAdds, 0, map[string]string{"&$r.inflow": "$0 == nil", "&$0.inflow": "$0 != nil"})
+	c.Count(hcC10SWU, swuAdds.Where("amount is not the parameter n", func(in ssa.Instruction) bool { return Term(HcCallArg(in, 1)) != "$1" }), 0, 0)
+	c.PassThroughIncl(hcC10SWU, Entry(), swuAdds)   // at least once on every path ...
+	c.NeverAfter(hcC10SWU, swuAdds, swuAdds, false) // ... and never twice
+	c.StoredUnder(hcC10SWU, Stores("http2.writeWindowUpdate.streamID"), map[string]string{"$0.id": "$0 != nil", "0": "$0 == nil"})
 	c.CallAfter(hcC10SWU, Stores("http2.writeWindowUpdate.n"), "(*http2.serverConn).writeFrame")
 	c.Writers("http2.writeWindowUpdate.n", hcC10SWU)
 	c.Has("(http2.writeWindowUpdate).writeFrame", Calls(hcC10WWU).ArgIs(1, "$r.streamID").ArgIs(2, "$r.n"))
@@ -491,14 +496,33 @@ func hcC10ResultsSent(c *Ctx, fnName string, floor int) {
 		return
 	}
 	adds := Calls(hcC10Add).F(c.P, fn)
-	if len(adds) < floor {
-		c.Undecided("floor", fnName+": inflow.add calls", fmt.Sprintf("found %d, reviewed %d", len(adds), floor))
+	// the reviewed count is a count of (call, window) pairs: one call on a window chosen
+	// by a preceding branch stands for one call per incoming window
+	if n := len(HsArgLeaves(c.P, fn, Calls(hcC10Add), 0)); n < floor {
+		c.Undecided("floor", fnName+": inflow.add calls", fmt.Sprintf("found %d, reviewed %d", n, floor))
 	}
 	c.ResultUsed(fnName, Calls(hcC10Add))
 	perField := map[string]int{}
 	for _, in := range adds {
 		a := in.(*ssa.Call)
-		field := HcRecvField(BaselineArgs(&a.Call)[0])
+		var fields []string
+		nConn := 0
+		for _, l := range HsArgLeaves(c.P, fn, hcOnly("this add", in), 0) {
+			f := HcRecvField(l.Val)
+			if f == hcC10CliConnFld || f == hcC10SrvConnFld {
+				nConn++
+			}
+			dup := false
+			for _, g := range fields {
+				dup = dup || g == f
+			}
+			if !dup {
+				fields = append(fields, f)
+			}
+		}
+		sort.Strings(fields)
+		field := strings.Join(fields, "|")
+		mixed := nConn > 0 && len(fields) > 1 // connection window on some paths, a stream window on others
 		perField[field]++
 		name := fmt.Sprintf("add on %s #%d", field, perField[field])
 		carries := func(v ssa.Value) bool {
@@ -530,7 +554,7 @@ func hcC10ResultsSent(c *Ctx, fnName string, floor int) {
 			}
 			return hit
 		}
-		isConn := field == hcC10CliConnFld || field == hcC10SrvConnFld
+		isConn := nConn > 0 && !mixed
 		var sinks []ssa.Instruction
 		bad := ""
 		HcEachInstr(fn, func(x ssa.Instruction) {
@@ -539,6 +563,9 @@ func hcC10ResultsSent(c *Ctx, fnName string, floor int) {
 				if CalleeName(&s.Call) == hcC10WWU && carries(BaselineArgs(&s.Call)[2]) {
 					sinks = append(sinks, x)
 					id := Term(BaselineArgs(&s.Call)[1])
+					if mixed {
+						bad = "credit of a window chosen at run time is written directly with stream id " + id + "; which id goes with which window is not evaluated here"
+					}
 					if isConn && id != "0" {
 						bad = "connection credit written on stream " + id
 					}
